@@ -18,7 +18,10 @@ for l in open(os.path.join(V, "properties.jsonl")):
             prev.append("- " + m.get("summary", "")[:260])
         except Exception:  # noqa
             pass
-    extra = "\n\nIMPORTANT - %d changes were already delivered for this property by other people; do NOT repeat them or close variants of them:\n%s\n\n%s" % (len(prev), "\n".join(prev), extra_t)
+    if os.environ.get("SEED_STRICT"):  # round 8: the agent sees the property text only, nothing from /verif
+        extra = "\n\n" + extra_t
+    else:
+      extra = "\n\nIMPORTANT - %d changes were already delivered for this property by other people; do NOT repeat them or close variants of them:\n%s\n\n%s" % (len(prev), "\n".join(prev), extra_t)
     p = t.replace("@WT@", "%s/wt-%s" % (rd, pid)).replace("@OUT@", "%s/out/%s" % (rd, pid)).replace("@PROP@", prop + extra).replace("@X1@", x1).replace("@X2@", x2)
     open("%s/prompt-%s.txt" % (rd, pid), "w").write(p)
 print("ok")
